@@ -1,1 +1,466 @@
-fn main() {}
+//! C27 — distinct packages get distinct module names.
+//!
+//! Random sets of packages in ONE namespace (same / different names; versions
+//! `M.m.p` with pre-release and build metadata containing dots, hyphens, mixed
+//! case; at most one unversioned package per name) are pushed into a real
+//! `wit_parser::Resolve`; `wit_bindgen_core::name_package_module` is evaluated
+//! for each.  Oracle: injectivity — two distinct packages of the namespace must
+//! not get the same module name.  End-to-end half: the real Rust generator runs
+//! on a world importing an interface from each package and the generated module
+//! tree (parsed with `syn`) must not contain two sibling modules of one name.
+//!
+//! A collision is labelled from the INPUT pair only (never from the mangled
+//! names): which characters differ between the two version strings / names.
+use corelib_mon::{catch, clip, fan_out, only_case};
+use serde_json::{json, Value};
+use std::collections::BTreeMap;
+use vkit::{Args, Report, Rng};
+use wit_bindgen_core::{name_package_module, Files, WorldGenerator};
+use wit_parser::{PackageId, Resolve};
+
+#[derive(Clone, Debug, PartialEq, Eq, PartialOrd, Ord)]
+struct Pkg {
+    name: String,
+    version: Option<String>,
+    iface: String,
+}
+impl Pkg {
+    fn id(&self, ns: &str) -> String {
+        match &self.version {
+            Some(v) => format!("{ns}:{}@{v}", self.name),
+            None => format!("{ns}:{}", self.name),
+        }
+    }
+}
+
+const NAMES: &[&str] = &["b", "b", "b", "b1", "b10", "foo-bar", "FOO-BAR", "foo-BAR", "foobar", "c"];
+const NUMS: &[&str] = &["0", "1", "2", "10", "1", "0"];
+const PRE_IDS: &[&str] = &["a", "b", "rc", "RC", "rc1", "rc-1", "rcA", "rc-a", "a-b", "a--b", "x", "X", "1", "0a", "alpha", "Alpha", "-a", "a-"];
+const BUILD_IDS: &[&str] = &["x", "X", "a", "b", "a-b", "001", "sha-1f", "SHA", "rc", "a--b"];
+
+fn gen_version(rng: &mut Rng) -> String {
+    let mut v = format!("{}.{}.{}", rng.pick(NUMS), rng.pick(NUMS), rng.pick(NUMS));
+    if rng.chance(3, 5) {
+        let n = rng.range(1, 3);
+        let ids: Vec<&str> = (0..n).map(|_| *rng.pick(PRE_IDS)).collect();
+        v.push('-');
+        v.push_str(&ids.join("."));
+    }
+    if rng.chance(2, 5) {
+        let n = rng.range(1, 2);
+        let ids: Vec<&str> = (0..n).map(|_| *rng.pick(BUILD_IDS)).collect();
+        v.push('+');
+        v.push_str(&ids.join("."));
+    }
+    v
+}
+
+/// A near twin of `v`: one small edit that keeps it a (probably) valid semver.
+fn twin(rng: &mut Rng, v: &str) -> String {
+    let (core, rest) = match v.find(|c| c == '-' || c == '+') {
+        Some(i) => (&v[..i], &v[i..]),
+        None => (v, ""),
+    };
+    let cs: Vec<char> = rest.chars().collect();
+    if cs.is_empty() {
+        return format!("{core}{}", rng.pick(&["-a", "+a", "-rc", "-RC"]));
+    }
+    let mut out = cs.clone();
+    match rng.below(7) {
+        0 => {
+            // swap one '.' <-> '-' after the first character
+            let idx: Vec<usize> = (1..cs.len()).filter(|i| cs[*i] == '.' || cs[*i] == '-').collect();
+            if let Some(&i) = idx.get(rng.usize(idx.len().max(1))) {
+                out[i] = if cs[i] == '.' { '-' } else { '.' };
+            }
+        }
+        1 => {
+            // pre-release <-> build metadata
+            if cs[0] == '-' && !rest.contains('+') {
+                out[0] = '+';
+            } else if cs[0] == '+' {
+                out[0] = '-';
+            }
+        }
+        2 => {
+            // flip the case of one letter
+            let idx: Vec<usize> = (0..cs.len()).filter(|i| cs[*i].is_ascii_alphabetic()).collect();
+            if !idx.is_empty() {
+                let i = idx[rng.usize(idx.len())];
+                out[i] = if cs[i].is_ascii_lowercase() { cs[i].to_ascii_uppercase() } else { cs[i].to_ascii_lowercase() };
+            }
+        }
+        3 => {
+            // double a hyphen
+            let idx: Vec<usize> = (1..cs.len()).filter(|i| cs[*i] == '-').collect();
+            if !idx.is_empty() {
+                let i = idx[rng.usize(idx.len())];
+                out.insert(i, '-');
+            }
+        }
+        4 => {
+            // turn "-x" (inside) into "X" (camel boundary)
+            let idx: Vec<usize> = (1..cs.len().saturating_sub(1)).filter(|i| cs[*i] == '-' && cs[*i + 1].is_ascii_lowercase() && cs[*i - 1].is_ascii_lowercase()).collect();
+            if !idx.is_empty() {
+                let i = idx[rng.usize(idx.len())];
+                out[i + 1] = cs[i + 1].to_ascii_uppercase();
+                out.remove(i);
+            }
+        }
+        5 => {
+            // a later '.'/'-' becomes the build separator
+            if !rest.contains('+') {
+                let idx: Vec<usize> = (1..cs.len()).filter(|i| cs[*i] == '.' || cs[*i] == '-').collect();
+                if !idx.is_empty() {
+                    let i = idx[rng.usize(idx.len())];
+                    out[i] = '+';
+                }
+            }
+        }
+        _ => {
+            // a genuinely different version
+            return gen_version(rng);
+        }
+    }
+    format!("{core}{}", out.into_iter().collect::<String>())
+}
+
+fn gen_set(rng: &mut Rng) -> Vec<Pkg> {
+    let n = rng.range(2, 5);
+    let mut set: Vec<Pkg> = vec![];
+    let same_iface = rng.chance(2, 3);
+    while set.len() < n {
+        let p = if !set.is_empty() && rng.chance(3, 5) {
+            // relative of an existing package
+            let base = set[rng.usize(set.len())].clone();
+            match rng.below(6) {
+                0 => Pkg { name: base.name.clone(), version: None, iface: String::new() },
+                1 => {
+                    let nm = match base.name.as_str() {
+                        "b" => *rng.pick(&["b1", "b10"]),
+                        "b1" | "b10" => "b",
+                        "foo-bar" => *rng.pick(&["FOO-BAR", "foo-BAR", "foobar"]),
+                        "FOO-BAR" | "foo-BAR" => "foo-bar",
+                        other => other,
+                    };
+                    Pkg { name: nm.to_string(), version: base.version.clone().or_else(|| Some(gen_version(rng))), iface: String::new() }
+                }
+                _ => {
+                    let v = match &base.version {
+                        Some(v) => twin(rng, v),
+                        None => gen_version(rng),
+                    };
+                    Pkg { name: base.name.clone(), version: Some(v), iface: String::new() }
+                }
+            }
+        } else {
+            Pkg { name: rng.pick(NAMES).to_string(), version: if rng.chance(1, 8) { None } else { Some(gen_version(rng)) }, iface: String::new() }
+        };
+        if set.iter().any(|q| q.name == p.name && q.version == p.version) {
+            continue;
+        }
+        set.push(p);
+    }
+    for (i, p) in set.iter_mut().enumerate() {
+        p.iface = if same_iface { "i".to_string() } else { format!("i{i}") };
+    }
+    set
+}
+
+fn directed() -> Vec<Vec<Pkg>> {
+    let p = |n: &str, v: &str| Pkg { name: n.into(), version: if v.is_empty() { None } else { Some(v.into()) }, iface: "i".into() };
+    vec![
+        vec![p("b", "1.0.0-a.b"), p("b", "1.0.0-a-b")],
+        vec![p("b", "1.0.0-x"), p("b", "1.0.0+x")],
+        vec![p("b", "1.0.0-a.b"), p("b", "1.0.0-a+b")],
+        vec![p("b", "1.0.0-a.b-c"), p("b", "1.0.0-a-b+c")],
+        vec![p("b", "1.0.0-rc"), p("b", "1.0.0-RC")],
+        vec![p("b", "1.0.0-rcA"), p("b", "1.0.0-rc-a")],
+        vec![p("foo-bar", ""), p("FOO-BAR", "")],
+        vec![p("b", "10.0.0"), p("b", "1.0.0"), p("b1", "0.0.0"), p("b1", "0.0.1")],
+        vec![p("b", "1.0.0"), p("b", "2.0.0"), p("b", ""), p("c", "1.0.0")],
+    ]
+}
+
+/// Label of a colliding pair, from the input only.
+fn classify(p: &Pkg, q: &Pkg) -> String {
+    let strip = |s: &str| -> String { s.chars().filter(|c| !matches!(c, '.' | '-' | '+' | '_')).collect::<String>().to_lowercase() };
+    if p.name != q.name {
+        if p.name.to_lowercase() == q.name.to_lowercase() {
+            return "path:name-mangling-collision:name-case".into();
+        }
+        let a = format!("{}{}", p.name, p.version.clone().unwrap_or_default());
+        let b = format!("{}{}", q.name, q.version.clone().unwrap_or_default());
+        if strip(&a) == strip(&b) {
+            return "path:name-mangling-collision:name-version-boundary".into();
+        }
+        return "path:name-mangling-collision:other".into();
+    }
+    let (Some(a), Some(b)) = (&p.version, &q.version) else {
+        return "path:version-mangling-collision:unversioned".into();
+    };
+    let (ac, bc): (Vec<char>, Vec<char>) = (a.chars().collect(), b.chars().collect());
+    let is_sep = |c: char| matches!(c, '.' | '-' | '+');
+    if ac.len() == bc.len() {
+        let diffs: Vec<(char, char)> = ac.iter().zip(bc.iter()).filter(|(x, y)| x != y).map(|(x, y)| (*x, *y)).collect();
+        if !diffs.is_empty() && diffs.iter().all(|(x, y)| is_sep(*x) && is_sep(*y)) {
+            let mut kinds: Vec<String> = diffs
+                .iter()
+                .map(|(x, y)| {
+                    let nm = |c: char| match c {
+                        '.' => "dot",
+                        '-' => "hyphen",
+                        _ => "plus",
+                    };
+                    let (mut l, mut r) = (*x, *y);
+                    // order: dot < hyphen < plus
+                    let rank = |c: char| match c {
+                        '.' => 0,
+                        '-' => 1,
+                        _ => 2,
+                    };
+                    if rank(l) > rank(r) {
+                        std::mem::swap(&mut l, &mut r);
+                    }
+                    format!("{}-vs-{}", nm(l), nm(r))
+                })
+                .collect();
+            kinds.sort();
+            kinds.dedup();
+            let k = if kinds.len() == 1 { kinds[0].clone() } else { "mixed-separators".to_string() };
+            return format!("path:version-mangling-collision:{k}");
+        }
+    }
+    if a.to_lowercase() == b.to_lowercase() {
+        return "path:version-mangling-collision:case".into();
+    }
+    if strip(a) == strip(b) {
+        return "path:version-mangling-collision:word-splitting".into();
+    }
+    "path:version-mangling-collision:other".into()
+}
+
+struct Built {
+    resolve: Resolve,
+    ids: Vec<PackageId>,
+}
+
+fn build(ns: &str, set: &[Pkg]) -> Result<Built, String> {
+    let mut r = Resolve::default();
+    r.all_features = true;
+    let mut ids = vec![];
+    for (i, p) in set.iter().enumerate() {
+        let text = format!("package {};\ninterface {} {{\n  type t = u32;\n  f: func(x: t) -> t;\n}}\n", p.id(ns), p.iface);
+        match catch(|| r.push_str(&format!("p{i}.wit"), &text)) {
+            Ok(Ok(id)) => ids.push(id),
+            Ok(Err(e)) => return Err(format!("{}: {e:#}", p.id(ns))),
+            Err((m, _)) => return Err(format!("{}: parser panic {m}", p.id(ns))),
+        }
+    }
+    Ok(Built { resolve: r, ids })
+}
+
+fn root_world(ns: &str, set: &[Pkg]) -> String {
+    let mut w = String::from("package zz:root;\nworld w {\n");
+    for p in set {
+        match &p.version {
+            Some(v) => w.push_str(&format!("  import {ns}:{}/{}@{v};\n", p.name, p.iface)),
+            None => w.push_str(&format!("  import {ns}:{}/{};\n", p.name, p.iface)),
+        }
+    }
+    w.push_str("}\n");
+    w
+}
+
+/// (parent path, duplicated module name)
+fn duplicate_modules(items: &[syn::Item], path: &str, out: &mut Vec<(String, String)>, count: &mut u64) {
+    let mut seen: BTreeMap<String, u32> = BTreeMap::new();
+    for it in items {
+        if let syn::Item::Mod(m) = it {
+            *count += 1;
+            let name = m.ident.to_string();
+            *seen.entry(name.clone()).or_insert(0) += 1;
+            if let Some((_, inner)) = &m.content {
+                duplicate_modules(inner, &format!("{path}::{name}"), out, count);
+            }
+        }
+    }
+    for (n, c) in seen {
+        if c > 1 {
+            out.push((path.to_string(), n));
+        }
+    }
+}
+
+fn run_set(ns: &str, set: &[Pkg], e2e: bool, idx: u64, seed: u64, rep: &mut Report, stream: &str) {
+    let ids_txt: Vec<String> = set.iter().map(|p| p.id(ns)).collect();
+    let replay = |extra: Value| json!({"seed": seed, "stream": stream, "case": idx, "packages": ids_txt, "detail": extra});
+    let b = match build(ns, set) {
+        Ok(b) => b,
+        Err(e) => {
+            rep.count("sets_rejected_by_wit_parser");
+            if idx < 3 {
+                rep.count(&format!("example rejection: {}", clip(&e, 120)));
+            }
+            return;
+        }
+    };
+    let names: Vec<String> = match catch(|| b.ids.iter().map(|id| name_package_module(&b.resolve, *id)).collect()) {
+        Ok(n) => n,
+        Err((m, l)) => {
+            rep.violation("path:panic", &format!("name_package_module panicked at {l}: {m} on {ids_txt:?}"), replay(json!({})));
+            return;
+        }
+    };
+    rep.eval();
+    rep.count_n("packages", set.len() as u64);
+    let mut first_collision: Option<String> = None;
+    let mut pairs_same_name = 0;
+    for i in 0..set.len() {
+        for j in i + 1..set.len() {
+            if set[i].name == set[j].name {
+                pairs_same_name += 1;
+            }
+            rep.count("package_pairs_compared");
+            if names[i] == names[j] {
+                let sig = classify(&set[i], &set[j]);
+                rep.count(&format!("collisions:{}", sig.rsplit(':').next().unwrap()));
+                rep.violation(
+                    &sig,
+                    &format!(
+                        "packages {} and {} (both present in one Resolve) get the same module name {:?} from name_package_module",
+                        set[i].id(ns),
+                        set[j].id(ns),
+                        names[i]
+                    ),
+                    replay(json!({"names": names})),
+                );
+                first_collision.get_or_insert(sig);
+            }
+        }
+    }
+    if pairs_same_name > 0 {
+        let mut key: Vec<String> = ids_txt.clone();
+        key.sort();
+        rep.distinct(&key.join(" "));
+    }
+    if idx < 3 && stream == "sets" {
+        rep.sample(json!({"packages": ids_txt, "module_names": names}));
+    }
+    if !e2e {
+        return;
+    }
+    // ---- end-to-end: the Rust generator on a world importing an interface of every package
+    let mut r = b.resolve;
+    let w = root_world(ns, set);
+    let root = match catch(|| r.push_str("root.wit", &w)) {
+        Ok(Ok(id)) => id,
+        Ok(Err(e)) => {
+            rep.inconclusive(&format!("C27 e2e: root world rejected by wit-parser: {}", clip(&format!("{e:#}"), 100)));
+            return;
+        }
+        Err(_) => {
+            rep.inconclusive("C27 e2e: wit-parser panicked on the root world");
+            return;
+        }
+    };
+    let world = match r.select_world(&[root], None) {
+        Ok(w) => w,
+        Err(_) => {
+            rep.inconclusive("C27 e2e: select_world failed");
+            return;
+        }
+    };
+    let mut opts = wit_bindgen_rust::Opts::default();
+    opts.generate_all = true;
+    let mut files = Files::default();
+    let res = catch(|| {
+        let mut g = opts.build();
+        g.generate(&mut r, world, &mut files)
+    });
+    match res {
+        Ok(Ok(())) => {}
+        Ok(Err(e)) => {
+            rep.inconclusive(&format!("C27 e2e: Rust generator returned an error: {}", clip(&format!("{e:#}"), 100)));
+            return;
+        }
+        Err((m, l)) => {
+            rep.inconclusive(&format!("C27 e2e: Rust generator panicked at {l}: {}", clip(&m, 80)));
+            return;
+        }
+    }
+    let mut total_mods = 0;
+    let mut dups = vec![];
+    let mut any = false;
+    for (name, contents) in files.iter() {
+        if !name.ends_with(".rs") {
+            continue;
+        }
+        let text = String::from_utf8_lossy(contents);
+        match syn::parse_file(&text) {
+            Ok(f) => {
+                any = true;
+                duplicate_modules(&f.items, "crate", &mut dups, &mut total_mods);
+            }
+            Err(e) => {
+                rep.inconclusive(&format!("C27 e2e: generated Rust does not parse with syn: {}", clip(&e.to_string(), 80)));
+                return;
+            }
+        }
+    }
+    if !any {
+        rep.inconclusive("C27 e2e: no .rs file generated");
+        return;
+    }
+    rep.count("e2e_worlds");
+    rep.count_n("e2e_modules_seen", total_mods);
+    if let Some((parent, name)) = dups.first() {
+        // one signature for the visible consequence of any name collision reported above;
+        // duplicates with no colliding pair in the set are something else
+        let class = if first_collision.is_some() { "from-name-collision" } else { "unattributed" };
+        rep.count(&format!("e2e_duplicates:{class}"));
+        rep.violation(
+            &format!("path:rust-duplicate-module:{class}"),
+            &format!(
+                "Rust bindings for a world importing {ids_txt:?} define module `{name}` twice inside `{parent}` ({} duplicate(s) in all)",
+                dups.len()
+            ),
+            replay(json!({"world": w, "duplicates": dups})),
+        );
+    }
+}
+
+fn main() {
+    std::env::set_var("VERIF_WASM_IMPORTS", "1");
+    let args = Args::parse();
+    let seed = args.seed();
+    let n: u64 = args.u64("n", if args.thorough() { 1_000_000 } else { 20_000 });
+    let n_e2e: u64 = args.u64("e2e", if args.thorough() { 20_000 } else { 300 });
+    let mut rep = Report::new(
+        "case = one set of 2..5 packages of one namespace pushed into a real Resolve (names from a pool with case / digit twins; versions M.m.p[-pre][+build], \
+         often near twins of each other); every pair is compared; distinct = package sets (exact ids) containing at least one pair with the same name; \
+         the first `e2e` sets and all directed sets also go through the Rust generator",
+    );
+    rep.assume("sets rejected by wit-parser (invalid semver after a twin edit) are discarded and counted");
+    rep.assume("e2e judges only duplicate sibling `mod` items in the syn-parsed output; generator errors/panics are inconclusive here (C16's business)");
+    let ns = "a";
+    let stream = args.str("stream", "");
+    if let Some(i) = only_case(&args) {
+        if stream == "directed" {
+            run_set(ns, &directed()[i as usize], true, i, seed, &mut rep, "directed");
+        } else {
+            let mut rng = corelib_mon::case_rng(seed, 27, i);
+            let set = gen_set(&mut rng);
+            run_set(ns, &set, true, i, seed, &mut rep, "sets");
+        }
+    } else {
+        for (i, set) in directed().iter().enumerate() {
+            run_set(ns, set, true, i as u64, seed, &mut rep, "directed");
+        }
+        fan_out(&mut rep, seed, 27, n, |rng, i, r| {
+            let set = gen_set(rng);
+            run_set(ns, &set, i < n_e2e, i, seed, r, "sets");
+        });
+    }
+    rep.write(&args.out());
+}
